@@ -161,7 +161,7 @@ def run_model(spec_text):
     r = subprocess.run([os.path.join(vlib.BIN, "driver"), "wfeval"], input=spec_text, text=True, capture_output=True, timeout=300)
     if r.returncode != 0:
         raise RuntimeError("model driver failed: " + r.stderr[-500:])
-    res = {"status": None, "failed": False, "tasks": [], "files": {}}
+    res = {"status": None, "failed": False, "tasks": [], "files": {}, "audit": {}}
     for ln in r.stdout.splitlines():
         t = ln.split()
         if t[0] == "STATUS":
@@ -169,6 +169,9 @@ def run_model(spec_text):
             res["failed"] = len(t) > 2 and t[2] == "1"
         elif t[0] == "FILE":
             res["files"][unhx(t[1])] = unhx(t[2])
+        elif t[0] == "AUDIT":
+            rec, _ = parse_rec(t, 2)
+            res["audit"][unhx(t[1])] = rec
         elif t[0] == "TASK":
             i = 1
             def nxt():
@@ -192,6 +195,32 @@ def run_model(spec_text):
             mt["key"] = task_key(mt)
             res["tasks"].append(mt)
     return res
+
+
+def parse_rec(t, i):
+    """record serialised by the driver -> normalised dict (the shape audit_norm gives for a real record)"""
+    def kv(i):
+        n = int(t[i]); i += 1
+        d = {}
+        for _ in range(n):
+            d[unhx(t[i])] = unhx(t[i + 1]); i += 2
+        return d, i
+    proc = unhx(t[i]); cmd = unhx(t[i + 1]); i += 2
+    params, i = kv(i)
+    tags, i = kv(i)
+    outs, i = kv(i)
+    n = int(t[i]); i += 1
+    up = {}
+    for _ in range(n):
+        p = unhx(t[i]); i += 1
+        up[p], i = parse_rec(t, i)
+    return {"ProcessName": proc, "Command": cmd, "Params": params, "Tags": tags, "OutFiles": outs, "Upstream": up}, i
+
+
+def audit_norm(rec):
+    """a real audit record without IDs and times"""
+    return {"ProcessName": rec.get("ProcessName", ""), "Command": rec.get("Command", ""), "Params": rec.get("Params") or {}, "Tags": rec.get("Tags") or {},
+            "OutFiles": rec.get("OutFiles") or {}, "Upstream": {p: audit_norm(u) for p, u in (rec.get("Upstream") or {}).items()}}
 
 
 def task_key(mt):
